@@ -268,6 +268,22 @@ type Replay struct {
 }
 
 // shortStack keeps the frames of the library under test and of the adapter.
+// InLib: does a frame of the library appear on the stack?  By symbol (github.com/welllog/golib/...) or by source
+// file: a closure of a generic library function is instantiated in the calling package and carries the caller's
+// package name (main.(*ad).Obs.(*DList[...]).All.func1), but its file is the library's.  The shim packages and the
+// add-only export files of the harness that live inside the scratch copy do not count.
+func InLib(stack string) bool {
+	for _, l := range strings.FieldsFunc(stack, func(r rune) bool { return r == '\n' || r == '|' || r == '@' }) {
+		if strings.Contains(l, "verifshim") || strings.Contains(l, "verif_export") {
+			continue
+		}
+		if strings.Contains(l, "welllog/golib") || (strings.Contains(l, "/golib/") && strings.Contains(l, ".go:")) {
+			return true
+		}
+	}
+	return false
+}
+
 func shortStack() string {
 	lines := strings.Split(string(debug.Stack()), "\n")
 	var keep []string
@@ -297,7 +313,7 @@ func RunPath(ad Adapter, init State, ops []Op, expect []State, drain bool) (trac
 	defer func() {
 		if r := recover(); r != nil {
 			st := lastStack + " || " + shortStack()
-			inlib := strings.Contains(strings.ReplaceAll(st, "golib/verifshim", ""), "welllog/golib")
+			inlib := InLib(st)
 			trace = append(trace, Event{"ev": "Panic", "msg": fmt.Sprint(r), "stack": st, "inlib": inlib})
 			kind := "panic"
 			if !inlib {
